@@ -11,44 +11,61 @@ import GdVerif.Proto.Eco
       Version → game_version         JoinUrl → connect                 every other member → the field of the same
                                                                        name in snake_case
 
-  Numbers: the counters are unsigned 32-bit integers, the four times / multipliers are IEEE doubles.
+  Numbers: the counters are unsigned 32-bit integers; the four times / multipliers are decimal literals and denote
+  the nearest IEEE double (RFC 8259 §6 leaves the precision to the reader; a reader of doubles must round correctly).
 -/
 namespace Gd.Eco.Spec
 open Gd Gd.Eco
 
-/-- a double that has a finite decimal expansion: `± n / 2^k` -/
-structure Dyadic where
+/-! ### doubles: a JSON number denotes the IEEE-754 binary64 value nearest to its decimal value -/
+
+def bitLen (n : Nat) : Nat := if n == 0 then 0 else n.log2 + 1
+
+/-- bit pattern of the double nearest to the positive rational `num / den` (ties to even, gradual underflow);
+`none` when that is infinite -/
+def nearestDouble (num den : Nat) : Option Nat :=
+  if num == 0 then some 0 else
+  -- 2^fl ≤ num/den < 2^(fl+1)
+  let l : Int := (bitLen num : Int) - (bitLen den : Int)
+  let geTwoPow (k : Int) : Bool := if k ≥ 0 then num ≥ den * 2 ^ k.toNat else num * 2 ^ (-k).toNat ≥ den
+  let fl : Int := if geTwoPow l then l else l - 1
+  -- the unit in the last place is 2^e; subnormal numbers share the smallest one
+  let e : Int := max (fl - 52) (-1074)
+  let n' := if e ≥ 0 then num else num * 2 ^ (-e).toNat
+  let d' := if e ≥ 0 then den * 2 ^ e.toNat else den
+  let q := n' / d'
+  let r := n' % d'
+  let q := if 2 * r > d' || (2 * r == d' && q % 2 == 1) then q + 1 else q
+  let e : Int := if q == 2 ^ 53 then e + 1 else e
+  let q := if q == 2 ^ 53 then 2 ^ 52 else q
+  if q < 2 ^ 52 then some q
+  else if e + 52 > 1023 then none
+  else some ((e + 52 + 1023).toNat * 2 ^ 52 + (q - 2 ^ 52))
+
+/-- a decimal literal `± m × 10^e` -/
+structure Decimal where
   neg : Bool
-  n : Nat
-  k : Nat
+  m : Nat
+  e : Int
   deriving Repr
 
-def log2 (n : Nat) : Nat := n.log2
+def Decimal.magnitude (d : Decimal) : Option Nat :=
+  if d.e ≥ 0 then nearestDouble (d.m * 10 ^ d.e.toNat) 1 else nearestDouble d.m (10 ^ (-d.e).toNat)
 
-/-- IEEE-754 binary64 bit pattern of a dyadic with `n < 2^53` and a normal exponent -/
-def Dyadic.bits (d : Dyadic) : Nat :=
-  let sign := if d.neg then 2 ^ 63 else 0
-  if d.n == 0 then sign
-  else
-    let b := log2 d.n
-    sign + (b + 1023 - d.k) * 2 ^ 52 + (d.n * 2 ^ (52 - b) - 2 ^ 52)
+/-- the double the literal denotes (0 when it denotes none: such literals are outside the domain) -/
+def Decimal.bits (d : Decimal) : Nat := (if d.neg then 2 ^ 63 else 0) + d.magnitude.getD 0
 
-/-- exact decimal text: integer part, and `k` fractional digits when `k > 0` -/
-def Dyadic.text (d : Dyadic) : Bytes :=
-  let scaled := d.n * 5 ^ d.k            -- n / 2^k = n·5^k / 10^k
-  let ip := scaled / 10 ^ d.k
-  let fp := scaled % 10 ^ d.k
-  let fdigits := natDec fp
-  let frac := if d.k == 0 then [] else [46] ++ List.replicate (d.k - fdigits.length) 48 ++ fdigits
-  (if d.neg then [45] else []) ++ natDec ip ++ frac
+/-- the literal in exponent notation, e.g. `-1234e-2` -/
+def Decimal.text (d : Decimal) : Bytes :=
+  (if d.neg then [45] else []) ++ natDec d.m ++ (if d.e == 0 then [] else [101] ++ intDec d.e)
 
-/-- abstract server state: the `Info` member, the four doubles given exactly -/
+/-- abstract server state: the `Info` member, the four doubles as the decimal literals the server writes -/
 structure State where
   info : Info
-  timeSinceStart : Dyadic
-  timeLeft : Dyadic
-  shelfLifeMultiplier : Dyadic
-  exhaustionAfterHours : Dyadic
+  timeSinceStart : Decimal
+  timeLeft : Decimal
+  shelfLifeMultiplier : Decimal
+  exhaustionAfterHours : Decimal
   deriving Repr
 
 /-- the response a user is entitled to -/
@@ -140,11 +157,8 @@ def defaultPort : Nat := 3001
 
 def okStr (s : Bytes) : Bool := validUtf8 s
 def okU32 (n : Nat) : Bool := n < 2 ^ 32
-/-- finite decimal expansions of at most 15 significant digits (one spare digit for a trailing zero): every
-reader that converts "digits × 10^-k" with one correctly rounded operation decodes them exactly.  (Doubles written
-with 16-17 significant digits are outside this domain: serde_json without its `float_roundtrip` feature may be one
-unit in the last place off on those.) -/
-def okDyadic (d : Dyadic) : Bool := d.n * 5 ^ d.k * 10 < 2 ^ 53 && d.k ≤ 22
+/-- a literal that denotes a finite double (moderate exponents) -/
+def okDecimal (d : Decimal) : Bool := d.magnitude.isSome && d.e.natAbs ≤ 400 && d.m < 10 ^ 400
 
 def distinctKeys : List (Bytes × Bytes) → Bool
   | [] => true
@@ -160,8 +174,8 @@ def wf (st : State) : Bool :=
   okU32 i.onlinePlayers &&
   okU32 i.totalPlayers &&
   i.onlinePlayersNames.all okStr &&
-  okDyadic st.timeSinceStart && i.timeSinceStart == st.timeSinceStart.bits &&
-  okDyadic st.timeLeft && i.timeLeft == st.timeLeft.bits &&
+  okDecimal st.timeSinceStart && i.timeSinceStart == st.timeSinceStart.bits &&
+  okDecimal st.timeLeft && i.timeLeft == st.timeLeft.bits &&
   okU32 i.animals &&
   okU32 i.plants &&
   okU32 i.laws &&
@@ -176,8 +190,8 @@ def wf (st : State) : Bool :=
   okU32 i.activeAndOnlinePlayers &&
   okU32 i.peakActivePlayers &&
   okU32 i.maxActivePlayers &&
-  okDyadic st.shelfLifeMultiplier && i.shelfLifeMultiplier == st.shelfLifeMultiplier.bits &&
-  okDyadic st.exhaustionAfterHours && i.exhaustionAfterHours == st.exhaustionAfterHours.bits &&
+  okDecimal st.shelfLifeMultiplier && i.shelfLifeMultiplier == st.shelfLifeMultiplier.bits &&
+  okDecimal st.exhaustionAfterHours && i.exhaustionAfterHours == st.exhaustionAfterHours.bits &&
   (i.serverAchievementsDict.all fun kv => okStr kv.1 && okStr kv.2) && distinctKeys i.serverAchievementsDict &&
   okStr i.relayAddress &&
   okStr i.access &&
